@@ -25,11 +25,13 @@ fn opts() -> Opts {
     // signature while it is listed)
     o.tags_on_wrappers = true;
     o.blank_wrappers = true;
-    o.unwrap_tags_shared = false;
+    // tags of unwrap-blocks may share their line with code or with other tags (the latter is known finding KF8)
+    o.unwrap_tags_shared = true;
     o.wrapper_tag_pct = 5;
     o.blank_wrapper_pct = 4;
     o.straddle_pct = 2;
     o.first_line_empty_pct = 5;
+    o.join_pct = 6;
     o
 }
 
@@ -51,7 +53,78 @@ pub fn gen(t: &mut Tape) -> HistoryCase {
         }
         chain.push(cur.clone());
     }
+    let mut doc = doc;
+    if t.chance(10) {
+        plant_joined_delimiter(&mut doc.nodes, &spell.ds, t);
+    }
     HistoryCase { doc, spell, chain }
+}
+
+/// Give one inline element a text before it that ends with the beginning of the start delimiter and a text behind it
+/// that begins with the rest: the source still has delimiter strings only in tags, the text after removal has one more.
+fn plant_joined_delimiter(nodes: &mut [astgen::Node], ds: &str, t: &mut Tape) -> bool {
+    let cuts: Vec<usize> = (1..ds.len()).filter(|k| ds.is_char_boundary(*k)).collect();
+    if cuts.is_empty() {
+        return false;
+    }
+    for n in nodes.iter_mut() {
+        match n {
+            astgen::Node::Inline { pre, post, .. } => {
+                if t.chance(50) {
+                    let k = cuts[t.below(cuts.len())];
+                    pre.push_str(&ds[..k]);
+                    *post = format!("{}x{}", &ds[k..], post);
+                    return true;
+                }
+            }
+            astgen::Node::Block { kids, .. } => {
+                if plant_joined_delimiter(kids, ds, t) {
+                    return true;
+                }
+            }
+            _ => {}
+        }
+    }
+    false
+}
+
+/// KF8 signature: a tag of another element stands on the line of an unwrap-block's own opening or closing tag.
+pub fn kf8_signature(r: &astgen::Rendered) -> bool {
+    r.elems.iter().enumerate().any(|(i, e)| {
+        e.unwrap && e.open_line != e.close_line && r.elems.iter().enumerate().any(|(k, o)| k != i && [o.open_line, o.close_line].iter().any(|l| *l == e.open_line || *l == e.close_line))
+    })
+}
+
+/// KF9 signature: the text that is left when the removable extents are taken out (before any tidying) contains a
+/// delimiter occurrence that the source did not have: the reference tokenizer finds more / other tags than survive.
+pub fn kf9_signature(r: &astgen::Rendered, tr: &astgen::Truth, spell: &Spell) -> bool {
+    let b = r.src.as_bytes();
+    let kept: Vec<u8> = (0..b.len()).filter(|k| tr.keep[*k]).map(|k| b[k]).collect();
+    let Ok(kept) = String::from_utf8(kept) else { return false };
+    // offsets of the surviving tags in the kept text
+    let mut before = vec![0usize; b.len() + 1];
+    for k in 0..b.len() {
+        before[k + 1] = before[k] + tr.keep[k] as usize;
+    }
+    let mut surviving: Vec<(usize, usize)> = r.elems.iter().flat_map(|e| [e.open, e.close]).filter(|t| (t.0..t.1).all(|k| tr.keep[k])).map(|t| (before[t.0], before[t.1])).collect();
+    surviving.sort();
+    ref_tags(&kept, &spell.ds, &spell.de) != surviving
+}
+
+#[derive(Clone, Copy, Default, Debug)]
+pub struct Kf {
+    pub kf2: bool,
+    pub kf3: bool,
+    pub kf8: bool,
+    pub kf9: bool,
+}
+
+impl Kf {
+    pub fn listed() -> Kf {
+        let k = load_known("C19");
+        let has = |s: &str| k.iter().any(|x| x.signature == s);
+        Kf { kf2: has("inline-end-followed-by-removed-line"), kf3: has("tag-on-or-blank-wrapper-line"), kf8: has("foreign-tag-on-unwrap-tag-line"), kf9: has("removal-joins-text-into-delimiter") }
+    }
 }
 
 /// KF2 signature (computed from the input and the configuration only): a removed region that has kept
@@ -97,11 +170,8 @@ pub fn kf2_signature(r: &astgen::Rendered, keep: &[bool]) -> bool {
     false
 }
 
-pub fn oracle(c: &HistoryCase, obs: &mut Obs, kf2: bool) -> Verdict {
-    oracle_kf(c, obs, kf2, true)
-}
-
-pub fn oracle_kf(c: &HistoryCase, obs: &mut Obs, kf2: bool, kf3: bool) -> Verdict {
+pub fn oracle_kf(c: &HistoryCase, obs: &mut Obs, kf: Kf) -> Verdict {
+    let (kf2, kf3) = (kf.kf2, kf.kf3);
     let r = astgen::render(&c.doc, &c.spell);
     if let Err(why) = astgen::in_domain(&r, &opts().domain()) {
         obs.excluded(why);
@@ -117,13 +187,26 @@ pub fn oracle_kf(c: &HistoryCase, obs: &mut Obs, kf2: bool, kf3: bool) -> Verdic
             return Verdict::Pass;
         }
     }
+    if kf.kf8 && kf8_signature(&r) {
+        obs.excluded("KF8:foreign-tag-on-unwrap-tag-line");
+        return Verdict::Pass;
+    }
+    // (elements whose reference extent is undefined count as kept in this mask: the predicate stays a function of the input)
+    if kf.kf9 && c.chain.iter().any(|a| kf9_signature(&r, &astgen::truth(&r, a), &c.spell)) {
+        obs.excluded("KF9:removal-joins-text-into-delimiter");
+        return Verdict::Pass;
+    }
     if kf2 && c.chain.iter().any(|a| kf2_signature(&r, &astgen::truth(&r, a).keep)) {
         obs.excluded("KF2:inline-end-followed-by-removed-line");
         return Verdict::Pass;
     }
-    if ref_tags(&r.src, &c.spell.ds, &c.spell.de).len() != 2 * r.elems.len() {
-        obs.excluded("rendering-does-not-tokenize-as-intended");
-        return Verdict::Pass;
+    {
+        let mut intended: Vec<(usize, usize)> = r.elems.iter().flat_map(|e| [e.open, e.close]).collect();
+        intended.sort();
+        if ref_tags(&r.src, &c.spell.ds, &c.spell.de) != intended {
+            obs.excluded("rendering-does-not-tokenize-as-intended");
+            return Verdict::Pass;
+        }
     }
     let mut cur = r.src.clone();
     let mut became_ready_steps = 0;
@@ -132,9 +215,11 @@ pub fn oracle_kf(c: &HistoryCase, obs: &mut Obs, kf2: bool, kf3: bool) -> Verdic
     for (i, acfg) in c.chain.iter().enumerate() {
         let cfg = acfg.to_cfg(&c.spell);
         let tr = astgen::truth(&r, acfg);
-        if tr.undefined {
-            obs.excluded("ready-unwrap-with-shared-tag-lines");
-            return Verdict::Pass;
+        // a ready unwrap-block whose tags share their lines with code: the reference extents are undefined, so only
+        // the relations between runs of the implementation are asserted, not the by-construction ones
+        let truth_ok = !tr.undefined;
+        if !truth_ok {
+            obs.class("ready-unwrap-with-shared-tag-lines(relations only)");
         }
         let next = match call_clean(&cur, &cfg) {
             Ok(o) => o,
@@ -165,7 +250,7 @@ pub fn oracle_kf(c: &HistoryCase, obs: &mut Obs, kf2: bool, kf3: bool) -> Verdic
             }
             Err(e) => vfail!("step {i}: list failed: {e}\n  text = {:?}", next),
         }
-        for e in &r.elems {
+        for e in r.elems.iter().filter(|_| truth_ok) {
             if tr.keep[e.open.0..e.open.1].iter().all(|k| !*k) && next.contains(&format!("#{}#", e.id)) {
                 vfail!("step {i}: the opening tag of element #{}# is ready under this configuration but is still present (stranded by an earlier step?)\n  original = {:?}\n  cleaned  = {:?}", e.id, truncate(&r.src, 900), truncate(&next, 900));
             }
@@ -173,7 +258,7 @@ pub fn oracle_kf(c: &HistoryCase, obs: &mut Obs, kf2: bool, kf3: bool) -> Verdic
         if i > 0 && tr.n_ready > prev_ready {
             became_ready_steps += 1;
         }
-        if i > 0 {
+        if i > 0 && truth_ok {
             // an unwrap element that becomes ready now although all its inner lines were removed earlier
             for (k, e) in r.elems.iter().enumerate() {
                 if let astgen::Extent::Parts(h, tl) = &tr.extents[k] {
@@ -209,8 +294,14 @@ pub fn check(ctx: &mut Ctx) {
     for c in ["chain-length=2", "chain-length=3", "chain-length=4", "every-step-removes-more", "unwrap-whose-inner-lines-were-removed-earlier"] {
         ctx.require_class(c);
     }
-    let kf2 = ctx.is_known("inline-end-followed-by-removed-line");
-    let kf3 = ctx.is_known("tag-on-or-blank-wrapper-line");
+    let kf = Kf { kf2: ctx.is_known("inline-end-followed-by-removed-line"), kf3: ctx.is_known("tag-on-or-blank-wrapper-line"), kf8: ctx.is_known("foreign-tag-on-unwrap-tag-line"), kf9: ctx.is_known("removal-joins-text-into-delimiter") };
+    let (kf2, kf3) = (kf.kf2, kf.kf3);
+    if kf.kf8 {
+        ctx.assume("known finding KF8 (a tag of another element on the line of an unwrap-block's own opening / closing tag) is excluded by its input signature and counted");
+    }
+    if kf.kf9 {
+        ctx.assume("known finding KF9 (removing the ready extents joins two text pieces into a delimiter string the source did not contain) is excluded by its input signature and counted");
+    }
     if kf3 {
         ctx.assume("known finding KF3 (a tag sits on a wrapper line of an unwrap-block, or a wrapper line is blank: which line is 'the line after the tag' then depends on what earlier runs removed) is excluded by its input signature and counted");
     }
@@ -218,9 +309,9 @@ pub fn check(ctx: &mut Ctx) {
         ctx.assume("known finding KF2 (a removed region at the end of a code line followed by a line that starts with another removed region) is excluded by its input signature and counted");
     }
     ctx.replay_corpus(replay);
-    ctx.run_known_witnesses(|_sub, case, obs| replay_case::<HistoryCase, _>(case, obs, |c, obs| oracle_kf(c, obs, false, false)));
-    ctx.random("histories", 420, 300_000, 12_000_000, gen, move |c, obs| oracle_kf(c, obs, kf2, kf3));
-    ctx.reshrink::<HistoryCase, _, _>("histories", move |c, obs| oracle_kf(c, obs, kf2, kf3), |c, fails| {
+    ctx.run_known_witnesses(|_sub, case, obs| replay_case::<HistoryCase, _>(case, obs, |c, obs| oracle_kf(c, obs, Kf::default())));
+    ctx.random("histories", 420, 300_000, 12_000_000, gen, move |c, obs| oracle_kf(c, obs, kf));
+    ctx.reshrink::<HistoryCase, _, _>("histories", move |c, obs| oracle_kf(c, obs, kf), |c, fails| {
         // fewer steps first, then a smaller document
         let mut cur = c.clone();
         loop {
@@ -247,10 +338,9 @@ pub fn check(ctx: &mut Ctx) {
 }
 
 pub fn replay(_sub: &str, case: &Value, obs: &mut Obs) -> Result<Verdict, String> {
-    let kf2 = load_known("C19").iter().any(|k| k.signature == "inline-end-followed-by-removed-line");
-    let kf3 = load_known("C19").iter().any(|k| k.signature == "tag-on-or-blank-wrapper-line");
+    let kf = Kf::listed();
     replay_case::<HistoryCase, _>(case, obs, |c, obs| {
         obs.eval();
-        oracle_kf(c, obs, kf2, kf3)
+        oracle_kf(c, obs, kf)
     })
 }
